@@ -19,7 +19,9 @@ the current value of the mutable `context.page_bottom`.
 Grammar: the stage-1 grammar, a paragraph line carrying any number of footnote calls
 (`<span style="float:footnote;footnote-display:block">`), each footnote an opaque block of `m` lines of
 height `h` with `footnote-policy: auto|line|block`; the page's `@footnote` area with vertical
-margins/paddings/borders and an optional `max-height`.
+margins/paddings/borders and an optional `max-height`, and one such `@footnote` rule per named page type
+(`FDoc.named`: the footnote area of a page takes the style of the page's type, so footnotes postponed to a page of
+another name land in an area of another style).
 
 State.  The Python code mutates five things while it lays a page out; they are threaded explicitly
 (`FState`): `context.footnotes` (not yet placed), `context.current_page_footnotes`,
@@ -165,17 +167,6 @@ def sumHeights : List Fn → Rat
   | [] => 0
   | f :: fs => f.height + sumHeights fs
 
-/-- The children loop of `block_container_layout` on the footnote area: `_in_flow_layout` stops before a
-footnote whose used `page` is named and differs from the previous footnote's (`block_level_page_name`);
-`prev` is the last footnote laid out. -/
-def areaShownGo (prev : Fn) : List Fn → List Fn
-  | [] => []
-  | f :: rest => if prev.page ≠ f.page ∧ f.page ≠ "" then [] else f :: areaShownGo f rest
-
-def areaShown : List Fn → List Fn
-  | [] => []
-  | f :: rest => f :: areaShownGo f rest
-
 /-- The laid-out footnote area (`block_level_layout(context, footnote_area, -inf, None, page)[0]`),
 before the final translation. -/
 structure AreaBox where
@@ -194,18 +185,17 @@ def AreaBox.marginHeight (a : AreaBox) : Rat := a.h + a.mt + a.mb + a.pt + a.pb 
 
 def AreaBox.contentY (a : AreaBox) : Rat := a.y + a.mt + a.bt + a.pt
 
-/-- Layout of the area holding `cur` (non-empty). A *fragmented* area (not every footnote shown) loses
-its bottom margin/padding/border (`remove_decoration(end=True)`) and is not subject to `max-height`. -/
+/-- Layout of the area holding `cur` (non-empty): `block_level_layout(context, footnote_area, -inf, None, page)`.
+The children loop of `block_container_layout` on the area never stops: nothing overflows (`bottom_space = -inf`,
+the page counts as empty) and `_in_flow_layout` forces no break inside a `FootnoteAreaBox` — neither for a forced
+`break-before/after` nor for a change of the used `page` name between two footnotes (repair 8db5909; before it the
+area was *fragmented* there and the footnotes after the change were dropped).  So every footnote is shown, the area
+keeps its bottom decoration, and `max-height` caps the content height. -/
 def areaLayout (a : AreaStyle) (pageH : Rat) (cur : List Fn) : AreaBox :=
-  let shown := areaShown cur
-  let fragmented := decide (shown.length < cur.length)
-  let s := sumHeights shown
-  if fragmented then
-    { shown := shown, y := pageH, h := s, mt := a.mt, mb := 0, pt := a.pt, pb := 0, bt := a.bt, bb := 0 }
-  else
-    let capped := match a.maxH with | none => s | some m => if s ≤ m then s else m
-    let h := if capped ≥ 0 then capped else 0
-    { shown := shown, y := pageH, h := h, mt := a.mt, mb := a.mb, pt := a.pt, pb := a.pb, bt := a.bt, bb := a.bb }
+  let s := sumHeights cur
+  let capped := match a.maxH with | none => s | some m => if s ≤ m then s else m
+  let h := if capped ≥ 0 then capped else 0
+  { shown := cur, y := pageH, h := h, mt := a.mt, mb := a.mb, pt := a.pt, pb := a.pb, bt := a.bt, bb := a.bb }
 
 /-- `last_child.position_y + last_child.margin_height() >
      footnote_area.position_y + footnote_area.margin_height() - footnote_area.margin_bottom` -/
@@ -259,8 +249,10 @@ inductive FootOut where
   deriving Repr, Inhabited, DecidableEq
 
 /-- The `for footnote in footnotes:` loop of `_linebox_layout` for one line. `guard` is
-`new_children or not page_is_empty`, `y` is `new_position_y + offset_y`. -/
-def footLoop (c : FCtx) (guard : Bool) (bs y : Rat) : List Fn → FState → FootOut × FState
+`new_children or not page_is_empty`, `y` is `new_position_y + offset_y`.  `footnote-policy: block` aborts the
+paragraph only when something is before it on the page; when the page is empty (`pie`, so the guard holds because
+lines of this paragraph are already placed) it breaks before the line, like `line` (repair 67bf2ca). -/
+def footLoop (c : FCtx) (guard pie : Bool) (bs y : Rat) : List Fn → FState → FootOut × FState
   | [], fs => (.ok, fs)
   | f :: rest, fs =>
     if f ∈ fs.pending then
@@ -269,10 +261,10 @@ def footLoop (c : FCtx) (guard : Bool) (bs y : Rat) : List Fn → FState → Foo
       if overflow then
         let fs2 := reportFootnote c r.1 f
         if guard && f.policy == .line then (.brk, fs2)
-        else if guard && f.policy == .block then (.abort, fs2)
-        else footLoop c guard bs y rest fs2
-      else footLoop c guard bs y rest r.1
-    else footLoop c guard bs y rest fs
+        else if guard && f.policy == .block then (if pie then (.brk, fs2) else (.abort, fs2))
+        else footLoop c guard pie bs y rest fs2
+      else footLoop c guard pie bs y rest r.1
+    else footLoop c guard pie bs y rest fs
 
 /-- Footnote effect of `_break_line`: the lines deleted for `widows` and the current line go through
 `remove_placeholders`. -/
@@ -299,7 +291,7 @@ def lineLoopF (c : FCtx) (st : PStyle) (calls : List Call) (b : BoxSt) (n : Nat)
       let newPosY' := if shift then newPosY - s.mt else newPosY
       let lineY := if shift then y - s.mt else y
       let mt' := if shift then 0 else s.mt
-      match footLoop c (!s.lines.isEmpty || !pageIsEmpty) bs (newPosY' + offset) (lineFns st calls i) fs with
+      match footLoop c (!s.lines.isEmpty || !pageIsEmpty) pageIsEmpty bs (newPosY' + offset) (lineFns st calls i) fs with
       | (.ok, fs') =>
         lineLoopF c st calls b n lineH pageIsEmpty bs fuel (i + 1) (y + lineH)
           { lines := s.lines ++ [(i, lineY)], posY := newPosY', skip := resume, mt := mt', dbd := dbd } fs'
@@ -343,12 +335,13 @@ def dropped (st : PStyle) (pageIsEmpty : Bool) (resume : Option Resume) : Bool :
   resume.isSome && avoidsPage st.brkInside && !pageIsEmpty
 
 /-- Paragraph container, after `_linebox_layout` returned `r` in state `fs`: stage-1 `finishPara`, and
-the footnotes un-laid-out on the two `return None` paths (`box.children[skip:]` is the source line box:
-every call of the paragraph). -/
+the footnotes un-laid-out on the two `return None` paths, both through
+`remove_placeholders(context, [*new_children, *box.children[skip:]], …)`: the laid-out lines first (on the abort
+path since repair e3ac9f0), then `box.children[skip:]` = the source line box: every call of the paragraph. -/
 def finishParaF (c : FCtx) (st : PStyle) (calls : List Call) (p : Prep) (pageIsEmpty : Bool) (id idx n : Nat)
     (r : LineResult) (fs : FState) : LayoutResultF :=
   let res := finishPara (ctxOf c fs) st p pageIsEmpty id idx n r
-  if r.abort then ⟨res, unlayAll c fs (calls.map (mkFn st))⟩
+  if r.abort then ⟨res, unlayAll c fs (lineFnsList st calls r.lines ++ calls.map (mkFn st))⟩
   else
     let b := { p.b with mt := r.mt }
     let resume : Option Resume := if r.stop then forgetIfFixed st b r.posY r.resume else none
@@ -361,12 +354,14 @@ def outResume (st : PStyle) (p : Prep) : KidsOutcome → Option Resume
   | .stopped resume s => forgetIfFixed st p.b s.posY resume
   | .finished _ => none
 
-/-- Block container, after the children loop returned `out` in state `fs`; `rest` = `box.children[skip:]`. -/
+/-- Block container, after the children loop returned `out` in state `fs`; `rest` = `box.children[skip:]`.
+Both `return None` paths run `remove_placeholders(context, [*new_children, *box.children[skip:]], …)` (the abort
+path since repair e3ac9f0). -/
 def finishBlockF (c : FCtx) (st : PStyle) (rest : List FootBox) (p : Prep) (pageIsEmpty : Bool) (id idx : Nat)
     (out : KidsOutcome) (fs : FState) : LayoutResultF :=
   let res := finishBlock (ctxOf c fs) st p pageIsEmpty id idx out
   match out with
-  | .aborted _ _ => ⟨res, unlayAll c fs (boxFnsList rest)⟩
+  | .aborted _ s => ⟨res, unlayAll c fs (tblFns c.tbl (flinesList s.newChildren) ++ boxFnsList rest)⟩
   | .stopped _ s =>
     if dropped st pageIsEmpty (outResume st p out) then
       ⟨res, unlayAll c fs (tblFns c.tbl (flinesList s.newChildren) ++ boxFnsList rest)⟩
@@ -468,8 +463,16 @@ structure FDoc where
   pageH : Rat
   rootLtr : Bool
   root : FootBox
-  area : AreaStyle
+  area : AreaStyle                               -- `@page { @footnote { … } }`
+  named : List (String × AreaStyle) := []        -- `@page <name> { @footnote { … } }` (all properties given)
   deriving Inhabited
+
+/-- `context.style_for(page_type, '@footnote')`: the `@footnote` rule of the named page type when there is one
+(it gives every property, so it replaces the unnamed rule), else the unnamed one. -/
+def FDoc.areaFor (d : FDoc) (name : String) : AreaStyle :=
+  match d.named.lookup name with
+  | some a => a
+  | none => d.area
 
 def FDoc.erase (d : FDoc) : Doc := { pageH := d.pageH, rootLtr := d.rootLtr, root := d.root.erase }
 
@@ -526,6 +529,16 @@ def pageCtx (d : FDoc) (index : Nat) (nextPage : NextPage) : FCtx :=
   { area := d.area, pageH := d.pageH, currentPage := index + 1, forcedBreak := forcedBreakOf nextPage,
     tbl := callTable d.root }
 
+/-- `name` of the page type in `remake_page`: '' for a blank page, else the page name asked by the previous page. -/
+def pageNameF (d : FDoc) (resume : Option Resume) (nextPage : NextPage) (rightPage : Bool) (reported : List Fn)
+    : String :=
+  if isBlankF d resume nextPage rightPage reported then "" else (match nextPage.page with | some p => p | none => "")
+
+/-- The layout context of the page: as `pageCtx`, with the `@footnote` style of the page type. -/
+def pageCtxOf (d : FDoc) (index : Nat) (resume : Option Resume) (nextPage : NextPage) (rightPage : Bool)
+    (reported : List Fn) : FCtx :=
+  { pageCtx d index nextPage with area := d.areaFor (pageNameF d resume nextPage rightPage reported) }
+
 /-- State in which the root box is laid out: fresh area, reported footnotes placed first. -/
 def pageStart (d : FDoc) (c : FCtx) (pending reported : List Fn) : FState :=
   placeReported c reported 0
@@ -535,8 +548,8 @@ def pageStart (d : FDoc) (c : FCtx) (pending reported : List Fn) : FState :=
 def remakePageF (d : FDoc) (index : Nat) (resume : Option Resume) (nextPage : NextPage) (rightPage : Bool)
     (pending reported : List Fn) : Option FPage :=
   let blank := isBlankF d resume nextPage rightPage reported
-  let name := if blank then "" else (match nextPage.page with | some p => p | none => "")
-  let c := pageCtx d index nextPage
+  let name := pageNameF d resume nextPage rightPage reported
+  let c := pageCtxOf d index resume nextPage rightPage reported
   let root := if blank then emptyRootF d.root else d.root
   let R := layoutBoxF c root 0 0 0 resume false true [] (pageStart d c pending reported)
   match R.r.frag with
@@ -545,7 +558,7 @@ def remakePageF (d : FDoc) (index : Nat) (resume : Option Resume) (nextPage : Ne
     some { page := { type := { right := rightPage, blank := blank, name := name, index := index },
                      root := f, resume := if blank then resume else R.r.resume,
                      nextPage := if blank then nextPage else R.r.nextPage },
-           area := areaOut d.area d.pageH R.fs.cur, cur := R.fs.cur,
+           area := areaOut c.area d.pageH R.fs.cur, cur := R.fs.cur,
            pending := R.fs.pending, reported := R.fs.reported }
 
 /-- `make_all_pages` with fuel; stops when `resume_at is None and not reported_footnotes`. -/
